@@ -95,6 +95,14 @@ CHECKS.update({
             "DESIGN.md §2 C15"),
 })
 
+CHECKS.update({
+    "C14": ("translation_validation",
+            "differential translation validation: every text is read by the C++ front end (rebuilt from the working tree) and by the pure-Python front end in one process; accept/reject and the full products (rules, generators, constraints, executed Python text, mode) are compared",
+            "Corpus: harvested specs, generated specs, the Python construct table and 18 kinds of syntactic perturbation (valid and invalid texts).",
+            "Error messages / token offsets are representation and not compared; products are built by the same visitors over either parse tree.",
+            "DESIGN.md §2 C14"),
+})
+
 NOT_YET = {}
 
 
